@@ -300,6 +300,7 @@ func (m *monitor) Snapshot() []kemtypes.ObjectAndFilterResult {
 // Also executes eventCb for events accumulated during "Synchronization" phase.
 func (m *monitor) EnableKubeEventCb() {
 	verifhook.Yield("mon.EnableKubeEventCb.begin")
+	verifhook.Yield("mon.EnableKubeEventCb.setFlag")
 	for _, informer := range m.ResourceInformers {
 		informer.enableKubeEventCb()
 		verifhook.Yield("mon.EnableKubeEventCb.nextInformer", informer.Namespace, informer.Name)
